@@ -848,6 +848,7 @@ func monitorSeq(c seqCase, harness []string) *cf.Monitor {
 // ---------------------------------------------------------------- candidate iteration
 type refRound struct {
 	Fail  []int64 `json:"fail"` // listeners failing this round (closed or dropping)
+	LL    []int64 `json:"leaderless,omitempty"` // listeners answering with a leaderless partition
 	OK    bool    `json:"ok"`
 	Tried []int64 `json:"tried"`
 	Live  []int64 `json:"live_seeds"` // listeners of client.seedBrokers before the call (monitor)
@@ -863,6 +864,7 @@ type refCase struct {
 	Unreachable []int64    `json:"unreachable"`
 	Rounds      []refRound `json:"rounds"`
 	After       *refRound  `json:"after,omitempty"` // candidate lists after the last call (deadline cases)
+	Deadline    bool       `json:"deadline,omitempty"`
 }
 
 // refusedAddr reserves a loopback port that refuses connections for as long as it is held: the socket is bound
@@ -1073,10 +1075,10 @@ func runRef(r *rand.Rand) (refCase, []string) {
 func refTerm(c refCase) string {
 	var rs []string
 	for _, rd := range c.Rounds {
-		rs = append(rs, fmt.Sprintf("{| rd_fail := %s; rd_ok := %s; rd_tried := %s |}", cf.ZList(rd.Fail), cf.Bool(rd.OK), cf.ZList(rd.Tried)))
+		rs = append(rs, fmt.Sprintf("{| rd_fail := %s; rd_ll := %s; rd_ok := %s; rd_tried := %s |}", cf.ZList(rd.Fail), cf.ZList(rd.LL), cf.Bool(rd.OK), cf.ZList(rd.Tried)))
 	}
-	return fmt.Sprintf("{| rc_seeds := %s; rc_attempts := %s; rc_brokers := %s; rc_unreachable := %s; rc_rounds := %s |}",
-		cf.ZList(c.Seeds), cf.Nat(c.Attempts), cf.ZList(c.Brokers), cf.ZList(c.Unreachable), cf.List(rs))
+	return fmt.Sprintf("{| rc_seeds := %s; rc_attempts := %s; rc_brokers := %s; rc_unreachable := %s; rc_deadline := %s; rc_rounds := %s |}",
+		cf.ZList(c.Seeds), cf.Nat(c.Attempts), cf.ZList(c.Brokers), cf.ZList(c.Unreachable), cf.Bool(c.Deadline), cf.List(rs))
 }
 
 // monitor: a call succeeds whenever a live seed or a known broker answers (or a set-aside seed, given a retry);
@@ -1306,7 +1308,8 @@ type dlScript struct {
 	Brokers     []int64             `json:"brokers"`
 	Unreachable []int64             `json:"unreachable"`
 	Attempts    int                 `json:"attempts"`
-	Rounds      []map[string]string `json:"rounds"` // per refresh: listener -> drop | slow (absent: healthy); the constructor runs with everybody healthy
+	TimeoutMs   int                 `json:"timeout_ms"` // Metadata.Timeout (0: unset)
+	Rounds      []map[string]string `json:"rounds"`     // per refresh: listener -> drop | slow | leaderless (absent: healthy); the constructor runs with every reachable listener healthy
 }
 type dlCase struct {
 	Script dlScript `json:"script"`
@@ -1327,6 +1330,7 @@ func genDl(r *rand.Rand) dlScript {
 		s.SeedAddrs = append(s.SeedAddrs, l)
 	}
 	s.Attempts = r.Intn(2)
+	s.TimeoutMs = int(dlTimeout / time.Millisecond)
 	used := append([]int64{}, s.Brokers...)
 	for _, l := range s.SeedAddrs {
 		if !memI(l, used) {
@@ -1360,10 +1364,56 @@ func genDl(r *rand.Rand) dlScript {
 	return s
 }
 
+// leaderless answers: a seed answers with a partition that has no leader, so the refresh retries (Retry.Max 1-2,
+// no back-off, no deadline) while other seeds are unreachable and already set aside; the advertised brokers are
+// reachable or not; further refreshes follow
+func genLl(r *rand.Rand) dlScript {
+	var s dlScript
+	for k := int64(1); k <= int64(r.Intn(3)); k++ {
+		s.Brokers = append(s.Brokers, k)
+	}
+	cand := []int64{4, 5, 6}
+	if len(s.Brokers) > 0 && r.Intn(3) == 0 {
+		cand = append(cand, 1) // a seed that is also an advertised broker
+	}
+	r.Shuffle(len(cand), func(i, j int) { cand[i], cand[j] = cand[j], cand[i] })
+	s.SeedAddrs = append(s.SeedAddrs, cand[:2+r.Intn(2)]...)
+	s.Attempts = 1 + r.Intn(2)
+	used := append([]int64{}, s.Brokers...)
+	for _, l := range s.SeedAddrs {
+		if !memI(l, used) {
+			used = append(used, l)
+		}
+	}
+	// at least one seed answers, the others are often unreachable
+	keep := s.SeedAddrs[r.Intn(len(s.SeedAddrs))]
+	for _, l := range used {
+		if l != keep && r.Intn(2) == 0 {
+			s.Unreachable = append(s.Unreachable, l)
+		}
+	}
+	for i, nr := 0, 2+r.Intn(2); i < nr; i++ {
+		m := map[string]string{}
+		for _, l := range used {
+			if memI(l, s.Unreachable) {
+				continue
+			}
+			switch r.Intn(6) {
+			case 0:
+				m[strconv.Itoa(int(l))] = "drop"
+			case 1, 2, 3:
+				m[strconv.Itoa(int(l))] = "leaderless"
+			}
+		}
+		s.Rounds = append(s.Rounds, m)
+	}
+	return s
+}
+
 func runDl(s dlScript) (dlCase, []string) {
 	rep := &reporter{}
 	c := dlCase{Script: s}
-	c.SeedAddrs, c.Brokers, c.Unreachable, c.Attempts = s.SeedAddrs, s.Brokers, s.Unreachable, s.Attempts
+	c.SeedAddrs, c.Brokers, c.Unreachable, c.Attempts, c.Deadline = s.SeedAddrs, s.Brokers, s.Unreachable, s.Attempts, s.TimeoutMs > 0
 	used := append([]int64{}, s.Brokers...)
 	for _, l := range s.SeedAddrs {
 		if !memI(l, used) {
@@ -1376,6 +1426,15 @@ func runDl(s dlScript) (dlCase, []string) {
 	addrs := map[int64]string{}
 	var open []*sarama.MockBroker
 	for _, l := range used {
+		if memI(l, s.Unreachable) {
+			a, release, err := refusedAddr()
+			if err != nil {
+				return c, []string{err.Error()}
+			}
+			addrs[l] = a
+			defer release()
+			continue
+		}
 		b := sarama.NewMockBroker(rep, int32(l))
 		addrs[l] = b.Addr()
 		open = append(open, b)
@@ -1407,6 +1466,9 @@ func runDl(s dlScript) (dlCase, []string) {
 			for _, k := range s.Brokers {
 				resp.AddBroker(addrs[k], int32(k))
 			}
+			if m == "leaderless" {
+				resp.AddTopicPartition("t0", 0, -1, []int32{1}, []int32{}, nil, sarama.ErrLeaderNotAvailable)
+			}
 			return resp
 		})
 	}
@@ -1423,14 +1485,14 @@ func runDl(s dlScript) (dlCase, []string) {
 	cfg.Metadata.Retry.Max = s.Attempts
 	cfg.Metadata.Retry.Backoff = 0
 	cfg.Metadata.RefreshFrequency = 0
-	cfg.Metadata.Timeout = dlTimeout
+	cfg.Metadata.Timeout = time.Duration(s.TimeoutMs) * time.Millisecond
 	cfg.Net.DialTimeout = 3 * time.Second
 	cfg.Net.ReadTimeout = 3 * time.Second
 	var seedAddrs []string
 	for _, l := range s.SeedAddrs {
 		seedAddrs = append(seedAddrs, addrs[l])
 	}
-	rd := refRound{Live: append([]int64{}, s.SeedAddrs...)}
+	rd := refRound{Live: append([]int64{}, s.SeedAddrs...), Fail: append([]int64{}, s.Unreachable...)}
 	client, err := sarama.NewClient(seedAddrs, cfg)
 	mu.Lock()
 	rd.Tried = append([]int64{}, tried...)
@@ -1470,7 +1532,12 @@ func runDl(s dlScript) (dlCase, []string) {
 		tried = nil
 		for _, l := range used {
 			mode[l] = m[strconv.Itoa(int(l))]
-			if mode[l] != "" {
+			switch {
+			case memI(l, s.Unreachable):
+				rd.Fail = append(rd.Fail, l)
+			case mode[l] == "leaderless":
+				rd.LL = append(rd.LL, l)
+			case mode[l] != "":
 				rd.Fail = append(rd.Fail, l)
 			}
 		}
@@ -1528,6 +1595,18 @@ func monitorDl(c dlCase, harness []string) *cf.Monitor {
 			if stranded && anyDead && !rd.OK {
 				return &cf.Monitor{Signature: "refresh:seed-lost-after-deadline", What: fmt.Sprintf("call %d: every seed %v was left set aside by the call before (it gave up past the deadline), nobody was asked, the call failed although a seed answers (failing now: %v)", i+1, rd.Dead, rd.Fail)}
 			}
+			if !c.Deadline { // no deadline: whoever answers among the live candidates is reached
+				anyLive := false
+				for _, l := range rd.Live {
+					anyLive = anyLive || healthy(l)
+				}
+				for _, l := range rd.Known {
+					anyLive = anyLive || healthy(l)
+				}
+				if anyLive && !rd.OK {
+					return &cf.Monitor{Signature: "refresh:failed-although-a-candidate-answers", What: fmt.Sprintf("call %d: seeds %v known %v failing %v leaderless %v: call failed", i+1, rd.Live, rd.Known, rd.Fail, rd.LL)}
+				}
+			}
 			// the head of the seed list is asked first, right after the deadline was set
 			if len(rd.Live) > 0 && healthy(rd.Live[0]) && !rd.OK {
 				return &cf.Monitor{Signature: "refresh:failed-although-the-first-candidate-answers", What: fmt.Sprintf("call %d: seeds %v failing %v", i+1, rd.Live, rd.Fail)}
@@ -1549,6 +1628,7 @@ func main() {
 	n := flag.Int("n", 200, "number of sequence cases (candidate cases: 2n)")
 	nconc := flag.Int("conc", 4, "number of concurrent-reader cases")
 	ndl := flag.Int("dl", 48, "number of candidate cases under a metadata deadline")
+	nll := flag.Int("ll", 150, "number of candidate cases with leaderless answers (in-refresh retries)")
 	flips := flag.Int("flips", 150, "refreshes per concurrent-reader case")
 	flag.Parse()
 	sarama.Logger = nopLogger{}
@@ -1581,15 +1661,19 @@ func main() {
 	}
 	// deadline cases wait for real time: scripts are generated first, then run 16 at a time
 	wd := &cf.Writer{Dir: *out, Prefix: "cases_dl", Imports: imports, CaseType: "rcase", MismatchFn: "mismatches_dl", ShardSize: 100}
-	scripts := make([]dlScript, *ndl)
+	scripts := make([]dlScript, *ndl+*nll)
 	for i := range scripts {
-		scripts[i] = genDl(r)
+		if i < *ndl {
+			scripts[i] = genDl(r)
+		} else {
+			scripts[i] = genLl(r)
+		}
 	}
 	type dlRes struct {
 		c   dlCase
 		mon *cf.Monitor
 	}
-	results := make([]dlRes, *ndl)
+	results := make([]dlRes, len(scripts))
 	sem := make(chan struct{}, 16)
 	var wg sync.WaitGroup
 	for i := range scripts {
@@ -1619,7 +1703,15 @@ func main() {
 				}
 			}
 		}
-		wd.Add(refTerm(x.c.refCase), cf.Sidecar{Case: x.c, Kind: "candidates-deadline", Nontrivial: slow >= 1 && len(x.c.Rounds) >= 3, Monitor: x.mon})
+		kind, nontrivial := "candidates-deadline", slow >= 1 && len(x.c.Rounds) >= 3
+		if !x.c.Deadline {
+			ll := 0
+			for _, rd := range x.c.Rounds {
+				ll += len(rd.LL)
+			}
+			kind, nontrivial = "candidates-leaderless", ll >= 1 && len(x.c.Rounds) >= 3
+		}
+		wd.Add(refTerm(x.c.refCase), cf.Sidecar{Case: x.c, Kind: kind, Nontrivial: nontrivial, Monitor: x.mon})
 	}
 	ws.Close()
 	wr.Close()
